@@ -142,6 +142,43 @@ def run(tier, seed):
             run_history(h + [('advance', None, 10.0)], ntasks=8)
         samples.append({'histories': 'exhaustive to length %d over %d operations, random to length %d, random of length 200' % (ex, len(ops), L + 1)})
 
+        # -- callbacks that install their own task again (a timer that re-arms itself), then move / suspend it ------
+        for base in (T.OneShotTask, T.OneShotDeleteTask):
+            for later in ('move', 'suspend', 'leave', 'move-twice'):
+                for gap in (5.0, 0.0):
+                    evaluations += 1
+                    Clock.now = 0.0
+                    m = fresh_manager()
+                    hits = []
+                    class Rearm(base):
+                        armed = 0
+                        def process_task(self):
+                            hits.append(Clock.now)
+                            if self.armed == 0:
+                                self.armed = 1
+                                self.install_task(when=Clock.now + 5.0)
+                    r = Rearm()
+                    r.install_task(when=1.0)
+                    Clock.now = 1.0 + gap * 0          # fire the first installation at its due time
+                    drain(m, lambda t: None)
+                    Clock.now = 3.0
+                    if later == 'move':
+                        r.install_task(when=10.0); want = [1.0, 10.0]
+                    elif later == 'move-twice':
+                        r.install_task(when=10.0); r.install_task(when=12.0); want = [1.0, 12.0]
+                    elif later == 'suspend':
+                        r.suspend_task(); want = [1.0]
+                    else:
+                        want = [1.0, 6.0]
+                    for now in (6.0, 10.0, 12.0, 20.0):
+                        Clock.now = now
+                        drain(m, lambda t: None)
+                    if hits != want or m.tasks:
+                        fail('self-rearming-task', (base.__name__, later), "fired at %r, expected %r (left queued: %d)" % (hits, want, len(m.tasks)))
+                    else:
+                        distinct += 1
+        samples.append({'self-rearming': 'OneShotTask / OneShotDeleteTask whose callback installs the task again, then move / move twice / suspend / leave'})
+
         # -- recurring tasks with exact virtual time and real floats --------------------
         for interval in (1000, 1500, 100, 250, 300, 333, 700, 1):
             for offset in (None, 100, 250, 333):
